@@ -45,6 +45,26 @@ def boundary_sizes(unit, blocks=3):
     return sorted(x for x in s if x >= 0)
 
 
+def tokn(hexstr):
+    """token number of the line protocol for the token with these bytes (see harness tokBytes)"""
+    b = bytes.fromhex(hexstr)
+    if len(b) == 0:
+        return 0
+    if len(b) == 8:
+        return int.from_bytes(b, "big")
+    return 2 ** 64 + 256 ** len(b) + int.from_bytes(b, "big")
+
+
+# tokens that a sloppy key function could merge (the real CRC-64 separates all of them)
+TOKEN_FAMILIES = {
+    "leading-zeros": ["01", "0001", "000001", "0000000000000001"],
+    "trailing-zeros": ["01", "0100", "010000", "0100000000000000"],
+    "prefix-extension": ["ab", "abcd", "abcdef", "abcdef0123456789"],
+    "permutation": ["0102", "0201", "010200", "000102"],
+    "zero-extended": ["2a", "000000000000002a", "2a00000000000000", "002a"],
+}
+
+
 class Case:
     def __init__(self, lines, kinds, nontrivial):
         self.lines = lines
@@ -173,8 +193,9 @@ def gen_cases(ctx, driver):
             for ln in boundary_sizes(buflen(sa, ma)):
                 tok = rng.randrange(1, 1 << 40)
                 head = xfer_lines(tok, rng.choice([POST, PUT]), ln, rng.randrange(200), CHANGED, 0, 0, style="write")
-                add([cfg_line(sa, ma, sb, mb)] + head + ["net deliver"] * min(60, 2 * (ln // size(min(sa, sb)) + 3)),
-                    {"style-write", "dir-up", "faultfree"}, nontrivial=ln >= size(sa))
+                # `settle`: nothing in flight any more, no fault happened: the judge's `oneway` clause asks where the body is
+                add([cfg_line(sa, ma, sb, mb)] + head + ["net deliver"] * min(90, 2 * (ln // size(min(sa, sb)) + 4)) + ["settle"],
+                    {"style-write", "oneway-settled", "dir-up", "faultfree"}, nontrivial=ln >= size(sa))
     # ---- 3. fault scripts: exhaustive single (quick) / double (thorough) faults on small configurations
     small = [(0, 80, 0, 80), (1, 96, 0, 80), (0, 80, 2, 128), (7, 1152, 6, 1100)]
     for (sa, ma, sb, mb) in small:
@@ -234,6 +255,15 @@ def gen_cases(ctx, driver):
                     for _ in range(12 * ntok * (max(buflen(sa, ma), buflen(sb, mb)) // u) + 10):
                         script.append("net swap" if r2.random() < 0.3 else "net deliver")
                     add(lines + script + ["net deliver"] * 40, {"concurrent-%d" % ntok, "directed-interleave", "dir-" + direction, "swap"})
+    # ---- 3c. near-collision tokens: concurrent transfers whose tokens differ only in leading / trailing zero bytes, are
+    #          prefixes, permutations or zero-extensions of each other; the receiver is fed the blocks of all of them
+    #          interleaved (what several clients behind one endpoint, or one client with several calls, produce)
+    for c in near_collision_cases(rng, thorough):
+        cases.append(c)
+    # ---- 3d. a transfer abandoned after k blocks, its entry expired but not (or: and) swept, then a new transfer with the
+    #          same token and another body
+    for c in stale_entry_cases(rng, thorough):
+        cases.append(c)
     # ---- 4. random histories: several tokens, random faults, injected stray / foreign blocks, ETag flips, expiry
     nrand = 40000 if thorough else 3000
     for _ in range(nrand):
@@ -241,8 +271,167 @@ def gen_cases(ctx, driver):
     return cases
 
 
+def inject_block(dst, code, tok, bt, szx, num, ln, etag, other, seed):
+    u = size(szx)
+    off = num * u
+    plen = min(u, max(0, ln - off))
+    more = 1 if off + plen < ln else 0
+    blk = "%d/%d/%d" % (szx, num, more)
+    return "inject %s %d %d %s %s %s %s %s %s %d %d %d" % (
+        dst, code, tok, blk if bt == 1 else "-", blk if bt == 2 else "-", str(ln) if bt == 1 else "-", str(ln) if bt == 2 else "-",
+        etag, other, seed, off, plen)
+
+
+def near_collision_cases(rng, thorough):
+    out = []
+    cfgs = [(0, 80, 0, 80), (1, 96, 0, 80), (2, 128, 2, 128)]
+    for fam, hexes in TOKEN_FAMILIES.items():
+        subsets = [hexes[:2], [hexes[0], hexes[2]], [hexes[1], hexes[3]], hexes[:3], hexes]
+        if not thorough:
+            subsets = [hexes[:2], rng.choice(subsets[1:3]), hexes[:3]]
+        for sub in subsets:
+            toks = [tokn(h) for h in sub]
+            for (sa, ma, sb, mb) in (cfgs if thorough else cfgs[:2]):
+                szx = min(sa, sb)
+                u = size(szx)
+                nblk = 5
+                for direction in ("up", "down"):
+                    head = [cfg_line(sa, ma, sb, mb)]
+                    lens = {}
+                    for i, t in enumerate(toks):
+                        ln = (nblk - 1) * u + 7 + i
+                        lens[t] = ln
+                        qother = "11:%s" % ("6f6e65" + "%02x" % (0x30 + i))       # Uri-Path differs per transfer
+                        rother = "12:2a,14:%02x" % (0x40 + i)
+                        if direction == "up":
+                            head += ["reg A %d %d %d %d - %s" % (t, POST, ln, 60 + i, qother), "reg B %d %d 0 0 - %s" % (t, CHANGED, rother)]
+                        else:
+                            head += ["reg A %d %d 0 0 - %s" % (t, GET, qother), "reg B %d %d %d %d e%d %s" % (t, CONTENT, ln, 70 + i, i, rother)]
+                    if direction == "down":
+                        head += ["do %d 20000" % t for t in toks]
+
+                    def block_line(i, t, num):
+                        if direction == "up":
+                            return inject_block("B", POST, t, 1, szx, num, lens[t], "-", "11:%s" % ("6f6e65" + "%02x" % (0x30 + i)), 60 + i)
+                        return inject_block("A", CONTENT, t, 2, szx, num, lens[t], "e%d" % i, "12:2a,14:%02x" % (0x40 + i), 70 + i)
+                    orders = []
+                    # lock step, the transfer served first alternates (block k of every transfer before block k+1 of any)
+                    o = []
+                    for num in range(nblk):
+                        idx = list(range(len(toks)))
+                        if num % 2 == 1:
+                            idx.reverse()
+                        o += [(i, num) for i in idx]
+                    orders.append(o)
+                    # random interleavings that keep every transfer's own blocks in order
+                    for _ in range(3 if thorough else 1):
+                        nxt = [0] * len(toks)
+                        o = []
+                        while any(n < nblk for n in nxt):
+                            i = rng.choice([k for k in range(len(toks)) if nxt[k] < nblk])
+                            o.append((i, nxt[i]))
+                            nxt[i] += 1
+                        orders.append(o)
+                    for o in orders:
+                        lines = head + [block_line(i, toks[i], num) for (i, num) in o] + ["net deliver"] * 4
+                        out.append(Case(lines + ["end"], {"near-collision-tokens", "tokens-" + fam, "concurrent-%d" % len(toks), "dir-" + direction}, True))
+                    # the same tokens through Do (what one client does): the calls are independent, every one completes
+                    if direction == "up" and len(toks) == 2:
+                        lines = [cfg_line(sa, ma, sb, mb)]
+                        for i, t in enumerate(toks):
+                            lines += xfer_lines(t, POST, lens[t], 60 + i, CHANGED, 2, 1)
+                        script = ["net swap" if rng.random() < 0.3 else "net deliver" for _ in range(40)]
+                        out.append(Case(lines + script + ["net deliver"] * 30 + ["end"],
+                                        {"near-collision-tokens", "tokens-" + fam, "concurrent-2", "dir-up", "swap"}, True))
+    return out
+
+
+def stale_entry_cases(rng, thorough):
+    out = []
+    cfgs = [(0, 80, 0, 80), (1, 96, 0, 80), (2, 128, 2, 128), (0, 80, 3, 192)]
+    if not thorough:
+        cfgs = cfgs[:2]
+    for (sa, ma, sb, mb) in cfgs:
+        u = size(min(sa, sb))
+        ua = buflen(sa, ma)
+        for direction in ("up", "down"):
+            for k in (1, 2, 3):
+                for sweep in ("none", "receiver", "both"):
+                    for shape in ("same-length", "longer", "shorter"):
+                        if not thorough and shape == "shorter" and sweep == "both":
+                            continue
+                        tok = rng.choice([7, tokn("01"), tokn("0001"), rng.randrange(1, 1 << 40)])
+                        unit = ua if direction == "up" else buflen(sb, mb)
+                        ln1 = (k + 2) * max(unit, u) + 5
+                        ln2 = {"same-length": ln1, "longer": ln1 + max(unit, u) + 3, "shorter": (k + 1) * max(unit, u) + 1}[shape]
+                        s1, s2 = rng.randrange(100), 100 + rng.randrange(100)
+                        lines = [cfg_line(sa, ma, sb, mb, 200, 200)]
+                        if direction == "up":
+                            lines += xfer_lines(tok, PUT, ln1, s1, CHANGED, 3, 1, tmo=100)
+                        else:
+                            lines += xfer_lines(tok, GET, 0, 0, CONTENT, ln1, s1, tmo=100)
+                        # k blocks reach the receiver, then the transfer is abandoned (what is in flight is lost)
+                        nd = 2 * k - 1 if direction == "up" else 2 * k
+                        lines += ["net deliver"] * nd + ["net drop"] * 4
+                        lines += ["sleep 300"]                      # beyond the call's deadline and both expiry times
+                        if sweep == "receiver":
+                            lines += ["tick %s" % ("B" if direction == "up" else "A")]
+                        elif sweep == "both":
+                            lines += ["tick A", "tick B"]
+                        if direction == "up":
+                            lines += ["reg A %d %d %d %d - %s" % (tok, PUT, ln2, s2, REQ_OTHER), "do %d 20000" % tok]
+                        else:
+                            lines += ["reg B %d %d %d %d - %s" % (tok, CONTENT, ln2, s2, RESP_OTHER), "do %d 20000" % tok]
+                        lines += ["net deliver"] * (2 * (ln2 // u + 3) + 4)
+                        out.append(Case(lines + ["end"], {"stale-entry", "stale-sweep-" + sweep, "dir-" + direction, "time"}, True))
+    # the same token used again for another body *within* the expiry of the abandoned transfer's entry (no ETag): the first
+    # block of the new body has to restart the reassembly (RFC 7959 section 2.5)
+    for (sa, ma, sb, mb) in cfgs:
+        u = size(min(sa, sb))
+        ua = buflen(sa, ma)
+        for k in (1, 2, 3):
+            for shape in ("same-length", "longer", "shorter"):
+                for code in (POST, PUT):
+                    tok = rng.choice([7, tokn("0001"), rng.randrange(1, 1 << 40)])
+                    ln1 = (k + 2) * max(ua, u) + 5
+                    ln2 = {"same-length": ln1, "longer": ln1 + max(ua, u) + 3, "shorter": (k + 1) * max(ua, u) + 1}[shape]
+                    s1, s2 = rng.randrange(100), 100 + rng.randrange(100)
+                    lines = [cfg_line(sa, ma, sb, mb, 3000, 3000)] + xfer_lines(tok, code, ln1, s1, CHANGED, 3, 1, tmo=100)
+                    lines += ["net deliver"] * (2 * k - 1) + ["net drop"] * 4 + ["sleep 150"]
+                    lines += ["reg A %d %d %d %d - %s" % (tok, code, ln2, s2, REQ_OTHER), "do %d 20000" % tok]
+                    lines += ["net deliver"] * (2 * (ln2 // u + 3) + 4)
+                    out.append(Case(lines + ["end"], {"token-reuse", "dir-up", "time"}, True))
+    return out
+
+
+def etag_discipline_ok(lines):
+    """generator precondition (RFC 7959 section 2.4, notes): the representations an application supplies under one token
+    carry pairwise distinct ETags (an ETag never comes back for another body), and a representation without ETag is the
+    only one of its token"""
+    seen = {}
+    for l in lines:
+        f = l.split()
+        if f[0] != "reg":
+            continue
+        key = (f[1], f[2], int(f[3]) <= 4)
+        rep = (f[4], f[5], f[7])
+        byetag = seen.setdefault(key, {})
+        if f[6] in byetag and byetag[f[6]] != rep:
+            return False
+        if byetag and ((f[6] == "-") != ("-" in byetag)) :
+            return False
+        byetag[f[6]] = rep
+    return True
+
+
 def random_case(rng):
     kinds = set()
+    fresh = [0]
+
+    def fresh_etag():
+        # never equal to an initial ETag (a1, b2c3) nor to an earlier fresh one of this history
+        fresh[0] += 1
+        return "f%03x" % fresh[0]
     sa, sb = rng.choice([0, 0, 1, 2, 3, 6, 7]), rng.choice([0, 0, 1, 2, 3, 6, 7])
     ma, mb = rng.choice(maxes(sa)), rng.choice(maxes(sb))
     ea, eb = rng.choice([3000, 3000, 200, 50]), rng.choice([3000, 3000, 200, 50])
@@ -250,6 +439,10 @@ def random_case(rng):
     m = size(min(sa, sb))
     ntok = rng.choice([1, 1, 2, 3])
     toks = rng.sample(range(1, 50), ntok)
+    if ntok > 1 and rng.random() < 0.3:
+        fam = rng.choice(sorted(TOKEN_FAMILIES))
+        toks = [tokn(h) for h in rng.sample(TOKEN_FAMILIES[fam], ntok)]
+        kinds.add("near-collision-tokens")
     info = {}
     for t in toks:
         direction = rng.choice(["up", "down", "both"])
@@ -314,7 +507,7 @@ def random_case(rng):
             more = 1 if off + plen < ln else 0
             if dst == "A" and etag != "-" and rng.random() < 0.25:
                 # a block of another representation arrives early: B's resource changes (new body, new ETag) first
-                etag = "%02x%02x" % (rng.randrange(256), rng.randrange(256))
+                etag = fresh_etag()
                 seed = rng.randrange(200)
                 other = "12:2a,14:%02x" % rng.randrange(1, 250)     # the new representation has its own Max-Age
                 lines.append("reg B %d %d %d %d %s %s" % (t, code, rl, seed, etag, other))
@@ -335,7 +528,7 @@ def random_case(rng):
             t = rng.choice(toks)
             d, ql, qs, rl, rs, etag, qcode, rother = info[t]
             if d != "up" and etag != "-":
-                ne = "%02x%02x" % (rng.randrange(256), rng.randrange(256))
+                ne = fresh_etag()
                 ns = rng.randrange(200)
                 no = "12:2a,14:%02x" % rng.randrange(1, 250)
                 lines.append("reg B %d %d %d %d %s %s" % (t, CONTENT if d == "down" else CHANGED, rl, ns, ne, no))
@@ -355,7 +548,7 @@ def load_corpus():
         try:
             rep = json.load(open(p))
             if rep.get("input"):
-                out.append(Case(list(rep["input"]), {"corpus"}, True))
+                out.append(Case(list(rep["input"]), {"corpus"} | set(rep.get("kinds", [])), True))
         except Exception:
             pass
     return out
@@ -364,9 +557,11 @@ def load_corpus():
 def sig_of(clause):
     c = clause.split("violates ", 1)[-1]
     word = c.split(":", 1)[0]
-    rest = re.sub(r"[0-9a-f]{16}", "H", c)
+    rest = re.sub(r"token \d+", "token N", c)
+    rest = re.sub(r"fnv \d+", "fnv N", rest)
+    rest = re.sub(r"[0-9a-f]{16}", "H", rest)
     rest = re.sub(r"\d+", "N", rest)
-    return "C04:%s" % rest[:90] if word in ("exact", "once", "slice", "hang") else "C04:" + rest[:90]
+    return "C04:%s" % rest[:110]
 
 
 def run_lines(ctx, art, cases, tag="x"):
@@ -390,7 +585,16 @@ def run_lines(ctx, art, cases, tag="x"):
 
 
 def explore(ctx, art):
-    cases = load_corpus() + gen_cases(ctx, art.get("driver"))
+    gen = gen_cases(ctx, art.get("driver"))
+    # (histories that re-use a token for another body *after* abandoning a transfer do so on purpose)
+    sequential = {"stale-entry", "token-reuse"}
+    bad_gen = [c for c in gen if not (c.kinds & sequential) and not etag_discipline_ok(c.lines)]
+    if bad_gen:
+        # must not happen: such a history is outside the property's precondition and is not run
+        ctx.notes.append("generator produced %d histories that break the ETag discipline; not run" % len(bad_gen))
+        ctx.count("generator-etag-discipline-broken", len(bad_gen))
+        gen = [c for c in gen if (c.kinds & sequential) or etag_discipline_ok(c.lines)]
+    cases = load_corpus() + gen
     nlines = sum(len(c.lines) for c in cases)
     ctx.log("cases: %d, lines: %d" % (len(cases), nlines))
     bad = {}      # case index -> (line index within the case, text)
@@ -420,18 +624,29 @@ def explore(ctx, art):
         if len(bad) > 200:
             ctx.notes.append("stopped after %d cases: more than 200 failing cases" % (base + len(chunk)))
             break
-    for ci, (k, what) in list(bad.items())[:6]:
+    # list one failing history per distinct signature first, so that no kind of failure is crowded out by another
+    def _sig(ci):
+        return sig_of(bad[ci][1]) + (" [token-reuse]" if "token-reuse" in cases[ci].kinds else "")
+    order, seen_sig = [], set()
+    for ci in bad:
+        if _sig(ci) not in seen_sig:
+            seen_sig.add(_sig(ci))
+            order.append(ci)
+    order += [ci for ci in bad if ci not in set(order)]
+    for ci in order[:6]:
+        k, what = bad[ci]
         c = cases[ci]
         rep = c.lines[:k + 1] + ([] if c.lines[k] == "end" else ["end"])
         clause = what.split("violates ", 1)[-1]
-        ctx.violations.append(common.Violation(clause.split(":", 1)[0], sig_of(what), what[:600],
+        sig = sig_of(what) + (" [token-reuse]" if "token-reuse" in c.kinds else "")
+        ctx.violations.append(common.Violation(clause.split(":", 1)[0], sig, what[:600],
                                                {"input": rep, "kinds": sorted(c.kinds)}))
     if len(bad) > 6:
         ctx.notes.append("%d further failing cases not listed" % (len(bad) - 6))
     if bad:
         hist = {}
         for ci, (i, what) in bad.items():
-            k = sig_of(what)
+            k = sig_of(what) + (" [token-reuse]" if "token-reuse" in cases[ci].kinds else "")
             hist[k] = hist.get(k, 0) + 1
         ctx.notes.append("failing cases by signature: %s" % sorted(hist.items(), key=lambda kv: -kv[1]))
     for ci, (k, l, o, m) in list(mism.items())[:3]:
@@ -492,8 +707,29 @@ def conn_level(ctx, art):
     ctx.cov["conn_level_transfers"] = n
 
 
+def keep_or_restore_driver(ctx, art):
+    """The failing-input search (judge) must run even when the tree under test no longer lets the driver build
+    (a regenerated fact that does not compile, a model edit in progress): keep a copy of the last driver that built
+    and fall back to it — the judge only evaluates Spec/Blockwise.lean, which depends on nothing regenerated."""
+    import shutil
+    last = os.path.join(common.WORK, "lastgood", "drv_c04")
+    if art.get("driver") and os.path.exists(art["driver"]):
+        os.makedirs(os.path.dirname(last), exist_ok=True)
+        try:
+            shutil.copy2(art["driver"], last)
+        except OSError:
+            pass
+        return
+    for cand in (last, os.path.join(common.LEAN, ".lake", "build", "bin", "drv_c04")):
+        if os.path.exists(cand):
+            art["driver"] = cand
+            ctx.notes.append("driver did not build: judge and model taken from the last good driver %s" % cand)
+            return
+
+
 def run(ctx):
     art = common.standard_prepare(ctx, MODULES, hx=False, test=True, generated=GENERATED)
+    keep_or_restore_driver(ctx, art)
     if art.get("test"):
         explore(ctx, art)
     return common.finish(ctx)
@@ -501,6 +737,7 @@ def run(ctx):
 
 def replay(ctx, rep):
     art = common.standard_prepare(ctx, MODULES, hx=False, test=True, generated=GENERATED)
+    keep_or_restore_driver(ctx, art)
     lines = rep.get("input") or []
     if not lines or not lines[0].startswith("cfg"):
         print("replay:", rep.get("what") or rep.get("no_longer_checks"))
